@@ -181,6 +181,26 @@ theorem scalar_case {g : Json → Except Err Val} {j j' : Json} {v : Val} (hp : 
   | arr _ => rw [harr] at h; cases h
   | obj _ _ => rw [hobj] at h; cases h
 
+theorem decTypedBytes_deep (n : Option Nat) (key : String) {j j' : Json} {v : Val} (hp : JPerm j j')
+    (hn : NoDupKeys j) (h : decTypedBytes n key j = .ok v) :
+    ∃ v', decTypedBytes n key j' = .ok v' ∧ VEquiv v v' := by
+  cases j with
+  | obj ms =>
+    obtain ⟨ms', ns, rfl, hpm, hperm⟩ := JPerm_obj_inv hp
+    cases hn with
+    | obj hnd hnm =>
+      have hl := lookRel_obj hpm hperm hnd hnm key
+      simp only [decTypedBytes, asObj, ok_bind] at h ⊢
+      rcases hl with ⟨h1, _⟩ | ⟨x, y, h1, h2, hxy, _⟩
+      · simp [h1, ofOpt] at h
+      · rw [h1] at h
+        rw [h2]
+        cases hxy with
+        | refl => exact ⟨v, h, .refl v⟩
+        | arr _ => simp [ofOpt, asStr] at h
+        | obj _ _ => simp [ofOpt, asStr] at h
+  | _ => simp [decTypedBytes, asObj] at h
+
 mutual
 theorem deep_ty : ∀ (t : JTy) (j j' : Json) (v : Val), JPerm j j' → NoDupKeys j →
     mapDecode fc o t j = .ok v → ∃ v', mapDecode fc o t j' = .ok v' ∧ VEquiv v v'
@@ -206,28 +226,8 @@ theorem deep_ty : ∀ (t : JTy) (j j' : Json) (v : Val), JPerm j j' → NoDupKey
   | .time, j, j', v, hp, _, h =>
     scalar_case hp (fun _ => by simp [mapDecode, asStr]) (fun _ => by simp [mapDecode, asStr]) h
   | .typedBytes viaPtr n code key, j, j', v, hp, hn, h => by
-    cases viaPtr
-    · exact scalar_case hp (fun _ => by cases n <;> simp [mapDecode, asStr])
-        (fun _ => by cases n <;> simp [mapDecode, asStr]) h
-    · cases n with
-      | none => simp [mapDecode] at h
-      | some n =>
-        cases j with
-        | obj ms =>
-          obtain ⟨ms', ns, rfl, hpm, hperm⟩ := JPerm_obj_inv hp
-          cases hn with
-          | obj hnd hnm =>
-            have hl := lookRel_obj hpm hperm hnd hnm key
-            simp only [mapDecode, asObj, ok_bind] at h ⊢
-            rcases hl with ⟨h1, _⟩ | ⟨x, y, h1, h2, hxy, _⟩
-            · simp [h1, ofOpt] at h
-            · rw [h1] at h
-              rw [h2]
-              cases hxy with
-              | refl => exact ⟨v, h, .refl v⟩
-              | arr _ => simp [ofOpt, asStr] at h
-              | obj _ _ => simp [ofOpt, asStr] at h
-        | _ => simp [mapDecode, asObj] at h
+    cases viaPtr <;> cases n <;> simp only [mapDecode] at h ⊢ <;>
+      first | exact decTypedBytes_deep _ key hp hn h | cases h
   | .slice b e, j, j', v, hp, hn, h => by
     cases j with
     | arr xs =>
@@ -348,9 +348,16 @@ theorem deep_fields : ∀ (fs : Fields) (ms ns : List (String × Json)) (vs : Li
       obtain ⟨vs0, hvs0, h⟩ := bind_eq_ok.mp h
       simp only [pure_eq_ok, Except.ok.injEq] at h
       subst h
-      obtain ⟨v', hv', he⟩ := deep_ty t x y v hxy hnx hv
       obtain ⟨vs', hvs', hee⟩ := deep_fields rest ms ns vs0 hl hvs0
-      exact ⟨v' :: vs', by simp [hv', hvs'], .cons he hee⟩
+      cases hbt : t.byValueTyped with
+      | none =>
+        rw [hbt] at hv
+        obtain ⟨v', hv', he⟩ := deep_ty t x y v hxy hnx hv
+        exact ⟨v' :: vs', by simp [hv', hvs'], .cons he hee⟩
+      | some nc =>
+        rw [hbt] at hv
+        obtain ⟨v', hv', he⟩ := decTypedBytes_deep nc.1 key hxy hnx hv
+        exact ⟨v' :: vs', by simp [hv', hvs'], .cons he hee⟩
   | .embedded viaPtr fs rest, ms, ns, vs, hl, h => by
     simp only [decFields] at h ⊢
     obtain ⟨xs, hxs, h⟩ := bind_eq_ok.mp h
